@@ -283,7 +283,7 @@ def geo_float(rng, tier):
 def numeric(rng, tier):
     """real code: ape/rpe zero on identical trajectories, rpe left-invariant, ape invariant under rigid/similarity transform of the
     estimate with align(/scale), statistics ordering; bspline constant twist + equivariance with rotations; chspline counts for float intervals"""
-    import torch, pypose as pp
+    import torch, math, pypose as pp
     N = 12 if tier == 'quick' else 120
     fails = []; samples = []; evals = 0
     torch.manual_seed(rng.randrange(1 << 30))
@@ -300,6 +300,15 @@ def numeric(rng, tier):
             r = pp.metric.ape(stamps, ref, jit.clone(), est, etype=et); evals += 1
             if not (float(r['Max']) >= float(r['RMSE']) - 1e-12 >= float(r['Mean']) - 2e-12 >= float(r['Min']) - 3e-12 >= -1e-12):
                 fails.append(dict(clause='statistics_ordering', signature=et, res={k_: float(v) for k_, v in r.items()}))
+        # the 'degree' error type is the 'radian' one in degrees - every statistic of it, and the same ordering
+        for fn_ in (pp.metric.ape, pp.metric.rpe):
+            if n < 4 and fn_ is pp.metric.rpe: continue
+            rr = fn_(stamps, ref, jit.clone(), est, etype='radian'); dg = fn_(stamps, ref, jit.clone(), est, etype='degree'); evals += 2
+            if not (float(dg['Max']) >= float(dg['RMSE']) - 1e-9 >= float(dg['Mean']) - 2e-9 >= float(dg['Min']) - 3e-9 >= -1e-9):
+                fails.append(dict(clause='statistics_ordering', signature=f'degree/{fn_.__name__}', res={k_: float(v) for k_, v in dg.items()}))
+            for k_ in ('Max', 'Min', 'Mean', 'Median', 'RMSE', 'STD'):
+                if k_ in rr and k_ in dg and abs(float(dg[k_]) - float(rr[k_]) * 180 / math.pi) > 1e-6 * (1 + abs(float(dg[k_]))):
+                    fails.append(dict(clause='degree_statistics_are_the_radian_ones_in_degrees', signature=f'{fn_.__name__}/{k_}', degree=float(dg[k_]), radian=float(rr[k_])))
         G = pp.randn_SE3(dtype=d)
         if n >= 4:
             a = pp.metric.rpe(stamps, ref, jit.clone(), est); b = pp.metric.rpe(stamps, ref, jit.clone(), G @ est); c = pp.metric.rpe(stamps, G @ ref, jit.clone(), est)
